@@ -22,7 +22,10 @@ Formats == {"raw", "qcow2", "vhd", "vhdx", "vmdk", "vdi", "qed", "iso", "gpt", "
 \* the 64 bytes after which the sparse-header region is examined, and only while the bytes captured are text
 \* (an overlaid signature with a non-ASCII byte inside the content ends that: VDI's first byte, DEL, at offset 64,
 \* the FAT media byte, the MBR signature at 511).
-ZeroSigs == {"none", "qcow2", "qed", "vhd", "vhdx", "vmdk", "luks", "vmdk_text"}
+\* "vmdk_text_longtype": the same text, but the value of createType is 70 characters long: no sub-format has such a
+\* name, the inspector does not take the text for a descriptor, and no other format claims it -- once the closing quote
+\* (byte 82) is there: a value that is not closed at all is taken as it stands (contents of 64 and 65 bytes).
+ZeroSigs == {"none", "qcow2", "qed", "vhd", "vhdx", "vmdk", "luks", "vmdk_text", "vmdk_text_longtype"}
 Bgs == {"zero", "random", "text", "text_nonascii"}
 \* lengths on both sides of every inspector's decision point
 Lens == {0, 3, 4, 5, 6, 7, 8, 63, 64, 65, 511, 512, 513, 591, 592, 593,
@@ -34,7 +37,8 @@ Present(s, n) == CASE s = "qcow2" -> n >= 4 [] s = "qed" -> n >= 4 [] s = "vhd" 
                    [] s = "vmdk_text" -> n >= 64
                    [] s = "vdi" -> n >= 68 [] s = "gpt" -> n >= 512 [] s = "iso" -> n >= 32774
                    [] OTHER -> FALSE
-Sig(f, x) == (x.zero = f) \/ (f = "vmdk" /\ x.zero = "vmdk_text") \/ (f = "vdi" /\ x.vdi) \/ (f = "gpt" /\ x.gpt) \/ (f = "iso" /\ x.iso)
+TextSig(x) == x.zero \in {"vmdk_text", "vmdk_text_longtype"}
+Sig(f, x) == (x.zero = f) \/ (f = "vmdk" /\ TextSig(x)) \/ (f = "vdi" /\ x.vdi) \/ (f = "gpt" /\ x.gpt) \/ (f = "iso" /\ x.iso)
 
 Match(f, x) ==
   CASE f = "raw"   -> TRUE
@@ -43,7 +47,8 @@ Match(f, x) ==
     [] f = "vhd"   -> x.zero = "vhd" /\ x.n >= 8
     [] f = "vhdx"  -> x.zero = "vhdx" /\ x.n >= 8
     [] f = "vmdk"  -> \/ (x.zero = "vmdk" /\ x.n >= 4)
-                      \/ (x.zero = "vmdk_text" /\ x.n >= 64 /\ ~(x.vdi /\ x.n >= 65) /\ ~x.fat /\ ~(x.gpt /\ x.n >= 512))
+                      \/ (TextSig(x) /\ x.n >= 64 /\ ~(x.vdi /\ x.n >= 65) /\ ~x.fat /\ ~(x.gpt /\ x.n >= 512)
+                          /\ (x.zero = "vmdk_text_longtype" => x.n < 83))
     [] f = "luks"  -> x.zero = "luks" /\ x.n >= 6
     [] f = "vdi"   -> x.vdi /\ x.n >= 512
     [] f = "gpt"   -> x.gpt /\ ~x.fat /\ x.n >= 512
@@ -88,7 +93,7 @@ Spec == Init /\ [][Next]_c
 
 (* C03 on the decision function *)
 Exclusive == (Decide(c) \in Formats \ {"raw"}) =>
-                /\ Sig(Decide(c), c) /\ (Present(Decide(c), c.n) \/ c.zero = "vmdk_text")
+                /\ Sig(Decide(c), c) /\ (Present(Decide(c), c.n) \/ TextSig(c))
                 /\ \A g \in Effective(c) \ {"raw", Decide(c)} : ~Match(g, c)
 MultiIsError == Cardinality(Matches(c)) >= 2 => Decide(c) = "ImageFormatError:multiple"
 RawOnlyAlone == /\ ("raw" \in FormatsOf(c) => FormatsOf(c) = {"raw"} /\ Matches(c) = {})
